@@ -90,6 +90,67 @@ def gen_cases(tier, rng):
     return cases
 
 
+def per_family(rep, binary, cases, sdir, tag="per"):
+    """the four-step periodic sequence (sequential executor + top tree) on `cases`: model differential + independent oracle;
+    shared with C02 (operator arguments of the top tree)"""
+
+    def canon(c, line):
+        if line.startswith(("ABORT", "MODEL", "?")):
+            return line
+        parts = line.split(" || ")
+        calls = Counter(x for x in (canon_line(l) for l in A.split_trace(parts[1])) if x is not None)
+        return (parts[0], sorted(calls.items(), key=repr), parts[-1].strip())
+
+    def oracle(c, line):
+        tc, k, stop = parse_case(c)
+        parts = line.split(" || ")
+        dd = T.parse_dump(parts[0])
+        m = T.oracle_structure(tc, dd) or T.oracle_placement(tc, dd)
+        if m: return "tree: " + m
+        iv = parts[-1].split()
+        lo, hi, nrep = expected_interval(k)
+        if iv[0] != "I" or [int(x) for x in iv[1:4]] != [lo, hi, nrep] or len(iv) > 4:
+            return "reported repetition interval %s, expected [%d,%d] x%d" % (" ".join(iv[1:]), lo, hi, nrep)
+        # arguments of the regular (periodic-list) calls
+        calls = [A.parse_call(x) for x in A.split_trace(parts[1])]
+        reg = [cl for cl in calls if not (cl.extra.get("t") and int(cl.extra["t"].split("/")[0]) >= 100)]
+        m = A.oracle_c02(tc, reg)
+        if m: return "arguments: " + m
+        # top-tree calls: tags consistent with the level argument
+        for cl in calls:
+            t = cl.extra.get("t")
+            if t and int(t.split("/")[0]) >= 100:
+                if int(t.split("/")[0]) != 100 + cl.level:
+                    return "top-tree %s called with level %d on the virtual cell of level %d" % (cl.op, cl.level, int(t.split("/")[0]) - 100)
+                for a, code, lv in cl.srcs:
+                    exp = {"M2M": 100 + cl.level + 1, "M2L": 100 + cl.level, "L2L": 100 + cl.level + 1}[cl.op]
+                    if lv is not None and lv >= 100 and lv != exp:
+                        return "top-tree %s at level %d received the virtual cell of level %d" % (cl.op, cl.level, lv - 100)
+                    if lv is not None and lv < 100 and lv != 1:
+                        return "top-tree %s received a real cell of level %d" % (cl.op, lv)
+                    if lv is not None and lv < 100 and code != (a & ((1 << tc.d) - 1)):
+                        return "top-tree %s links the real root to level-1 cell %d with child position code %d (its octant is %d)" % (cl.op, a, code, a & ((1 << tc.d) - 1))
+                real = [a for a, _, lv in cl.srcs if lv is not None and lv < 100]
+                if len(set(real)) != len(real):
+                    return "top-tree %s received the same level-1 cell twice: %s" % (cl.op, real)
+        # values: every particle image in the reported interval exactly once, except itself in the central box
+        Rv = {}
+        for tok in parts[2].split()[1:]:
+            a, b = tok.split("="); Rv[int(a)] = int(b)
+        S = 1
+        for j in range(tc.d):
+            S = (S * sum(chi1(j, s) for s in range(lo, hi + 1))) & M
+        W = sum(A.weight(p) for p in range(tc.N)) & M
+        for p in range(tc.N):
+            exp = (W * S - A.weight(p)) & M
+            if Rv.get(p) != exp:
+                return "particle %d accumulated %s; one contribution from every image in [%d,%d]^%d except itself is %d" % (p, Rv.get(p), lo, hi, tc.d, exp)
+        return None
+
+    vlib.differential(rep, binary, cases, sdir, tag, canon=canon, oracle=oracle,
+                      nontrivial=lambda c, i: "t=10" in i, clause=lambda c: "per:d%s:k%s" % (c.split()[1], c.split()[5]))
+
+
 def run(tier, seed):
     rep = vlib.Report("C10", tier, seed, "proof")
     sdir = vlib.scratch("C10")
@@ -128,57 +189,7 @@ def run(tier, seed):
             vlib.differential(rep, ibin, pc, sdir, "pshift", oracle=shift_oracle, clause=lambda c: "pshift:d" + c.split()[1],
                               nontrivial=lambda c, i: "need=1" in i)
         cases = gen_cases(tier, rng)
-
-        def canon(c, line):
-            if line.startswith(("ABORT", "MODEL", "?")):
-                return line
-            parts = line.split(" || ")
-            calls = Counter(x for x in (canon_line(l) for l in A.split_trace(parts[1])) if x is not None)
-            return (parts[0], sorted(calls.items(), key=repr), parts[-1].strip())
-
-        def oracle(c, line):
-            tc, k, stop = parse_case(c)
-            parts = line.split(" || ")
-            dd = T.parse_dump(parts[0])
-            m = T.oracle_structure(tc, dd) or T.oracle_placement(tc, dd)
-            if m: return "tree: " + m
-            iv = parts[-1].split()
-            lo, hi, nrep = expected_interval(k)
-            if iv[0] != "I" or [int(x) for x in iv[1:4]] != [lo, hi, nrep] or len(iv) > 4:
-                return "reported repetition interval %s, expected [%d,%d] x%d" % (" ".join(iv[1:]), lo, hi, nrep)
-            # arguments of the regular (periodic-list) calls
-            calls = [A.parse_call(x) for x in A.split_trace(parts[1])]
-            reg = [cl for cl in calls if not (cl.extra.get("t") and int(cl.extra["t"].split("/")[0]) >= 100)]
-            m = A.oracle_c02(tc, reg)
-            if m: return "arguments: " + m
-            # top-tree calls: tags consistent with the level argument
-            for cl in calls:
-                t = cl.extra.get("t")
-                if t and int(t.split("/")[0]) >= 100:
-                    if int(t.split("/")[0]) != 100 + cl.level:
-                        return "top-tree %s called with level %d on the virtual cell of level %d" % (cl.op, cl.level, int(t.split("/")[0]) - 100)
-                    for a, code, lv in cl.srcs:
-                        exp = {"M2M": 100 + cl.level + 1, "M2L": 100 + cl.level, "L2L": 100 + cl.level + 1}[cl.op]
-                        if lv is not None and lv >= 100 and lv != exp:
-                            return "top-tree %s at level %d received the virtual cell of level %d" % (cl.op, cl.level, lv - 100)
-                        if lv is not None and lv < 100 and lv != 1:
-                            return "top-tree %s received a real cell of level %d" % (cl.op, lv)
-            # values: every particle image in the reported interval exactly once, except itself in the central box
-            Rv = {}
-            for tok in parts[2].split()[1:]:
-                a, b = tok.split("="); Rv[int(a)] = int(b)
-            S = 1
-            for j in range(tc.d):
-                S = (S * sum(chi1(j, s) for s in range(lo, hi + 1))) & M
-            W = sum(A.weight(p) for p in range(tc.N)) & M
-            for p in range(tc.N):
-                exp = (W * S - A.weight(p)) & M
-                if Rv.get(p) != exp:
-                    return "particle %d accumulated %s; one contribution from every image in [%d,%d]^%d except itself is %d" % (p, Rv.get(p), lo, hi, tc.d, exp)
-            return None
-
-        vlib.differential(rep, binary, cases, sdir, "per", canon=canon, oracle=oracle,
-                          nontrivial=lambda c, i: "t=10" in i, clause=lambda c: "per:d%s:k%s" % (c.split()[1], c.split()[5]))
+        per_family(rep, binary, cases, sdir)
         # ---- target/source variant with TbfAlgorithmPeriodicTopTreeTsm ----
         tcases = []
         for _ in range(60 if tier == "quick" else 3000):
